@@ -724,7 +724,7 @@ void MDSDRV_Track_Writer::event_hook()
 			converted_events.push_back(MDSDRV_Event(MDSDRV_Event::VOL,param & 0x7f));
 			break;
 		case Event::PAN:
-			converted_events.push_back(MDSDRV_Event(MDSDRV_Event::PAN,param << 6));
+			converted_events.push_back(MDSDRV_Event(MDSDRV_Event::PAN,param * 64));
 			break;
 		case Event::PAN_ENVELOPE:
 			try
